@@ -200,7 +200,7 @@ func ValidityLints(fn *ssa.Function) []LintFinding {
 		// --- error results (L1, L4) -----------------------------------------
 		if isErrorType(subj.Type()) {
 			// L4a: on the non-nil path the error must be used somewhere
-			if call, isCall := errorSource(subj); isCall {
+			if call, isCall := errorSource(subj); isCall && !isStateQuery(call) {
 				inNon := regionOf(b, nonNilSucc)
 				inNil := regionOf(b, nilSucc)
 				if len(nonNilSucc.Preds) == 1 {
@@ -236,7 +236,7 @@ func ValidityLints(fn *ssa.Function) []LintFinding {
 							if !ok || len(ret.Results) == 0 {
 								continue
 							}
-							last := ret.Results[len(ret.Results)-1]
+							last := ResultAt(ret, len(ret.Results)-1)
 							if isErrorType(last.Type()) {
 								if c, ok := last.(*ssa.Const); ok && c.IsNil() {
 									reachesSuccess = true
@@ -247,6 +247,57 @@ func ValidityLints(fn *ssa.Function) []LintFinding {
 					}
 					if !used {
 						out = append(out, LintFinding{iff, "the error of " + Short(Expr(call), 50) + " is tested but never used on the path where it is non-nil: the failure is ignored and execution continues as if the call had succeeded"})
+					}
+				}
+				// L4a': the non-nil edge goes straight back into a loop (or to a join): the error is
+				// ignored if no use of it can be reached before the call is made again, while the
+				// function can still return success
+				if ci, ok := call.(ssa.Instruction); ok && len(nonNilSucc.Preds) > 1 && len(nilSucc.Preds) == 1 {
+					defBlock := ci.Block()
+					reach := map[*ssa.BasicBlock]bool{}
+					if nonNilSucc != defBlock {
+						reach = blockReachAvoiding(nonNilSucc, defBlock)
+						reach[nonNilSucc] = true
+						delete(reach, defBlock)
+					}
+					used := false
+					for cv := range flowsTo(subj) {
+						if refs := cv.Referrers(); refs != nil {
+							for _, u := range *refs {
+								if u == ssa.Instruction(iff) || u == ssa.Instruction(bo) {
+									continue
+								}
+								if reach[u.Block()] {
+									used = true
+								}
+							}
+						}
+					}
+					usedOnNil := false
+					for cv := range flowsTo(subj) {
+						if refs := cv.Referrers(); refs != nil {
+							for _, u := range *refs {
+								if inNil(u.Block()) {
+									usedOnNil = true
+								}
+							}
+						}
+					}
+					if !used && usedOnNil {
+						// (only when the nil path does use it: the test is then plainly inverted; a bare
+						// `if err != nil { continue }` is a deliberate skip and not reported)
+						all := blockReachAvoiding(nonNilSucc, nil)
+						all[nonNilSucc] = true
+						for rb := range all {
+							ret, ok := rb.Instrs[len(rb.Instrs)-1].(*ssa.Return)
+							if !ok || len(ret.Results) == 0 {
+								continue
+							}
+							if c, ok := ResultAt(ret, len(ret.Results)-1).(*ssa.Const); ok && c.IsNil() && isErrorType(c.Type()) {
+								out = append(out, LintFinding{iff, "the error of " + Short(Expr(call), 50) + " is used only on the path where it is nil; where it is non-nil the loop simply continues: the failure is ignored"})
+								break
+							}
+						}
 					}
 				}
 				// L4b: returned as the error on the path where it is nil, next to zero results
@@ -564,4 +615,15 @@ func stableRoot(v ssa.Value) bool {
 		}
 	}
 	return false
+}
+
+// isStateQuery: the "error" is the state of an object (context.Context.Err), not the outcome
+// of an operation: testing it and asking again on the failing path is not a dropped failure.
+func isStateQuery(v ssa.Value) bool {
+	call, ok := v.(*ssa.Call)
+	if !ok {
+		return false
+	}
+	f := CalleeFunc(&call.Call)
+	return f != nil && f.Name() == "Err" && f.Pkg() != nil && f.Pkg().Path() == "context"
 }
